@@ -18,9 +18,11 @@ EXTENDS PainterDefs
 
 CONSTANTS L,        \* cells 1..L (covers are arbitrary non-empty subsets: boxes and masked shapes alike)
           Variant,  \* assembly order, see PainterDefs!Before; "arbitrary_ties" = any sorted permutation
+          IsoTest,  \* isotropy test used by SelectTiers: "full" (the code) or "ignore_zz" (wrong), see PainterDefs!IsIsoV
           NObj,     \* number of static objects including the volume
           Family    \* "small": NObj = 4, all covers x all orders, and all material kinds
-                    \* "ties" : any NObj, many objects sharing a placement order (one or two tie groups)
+                    \* "ties" : any NObj, many objects sharing a placement order (one or two tie groups), every cover assignment
+                    \* "tiesq": as "ties" with the three covers rotating along the list (3 assignments; quick tier)
 
 Cells == 1..L
 Covers == (SUBSET Cells) \ {{}}
@@ -35,7 +37,9 @@ Catalogue == <<
     Mat(<<2,1,0,1,1,0,0,0,4>>, Ident9, Zero9, Zero9),                                   \* 4 full tensor
     Mat(<<4,0,0,0,4,0,0,0,4>>, <<2,0,0,0,2,0,0,0,2>>, Zero9, Zero9),                    \* 5 magnetic isotropic
     Mat(<<2,0,0,0,2,0,0,0,2>>, Ident9, <<1,0,0,0,1,0,0,0,1>>, Zero9),                   \* 6 conductive isotropic
-    Mat(<<8,0,0,0,8,0,0,0,8>>, <<1,0,0,0,2,0,0,0,4>>, <<1,0,0,0,2,0,0,0,3>>, <<1,1,0,1,2,0,0,0,1>>) >>  \* 7 diag mu, diag se, full sm
+    Mat(<<8,0,0,0,8,0,0,0,8>>, <<1,0,0,0,2,0,0,0,4>>, <<1,0,0,0,2,0,0,0,3>>, <<1,1,0,1,2,0,0,0,1>>),   \* 7 diag mu, diag se, full sm
+    Mat(<<2,0,0,0,2,0,0,0,4>>, Ident9, Zero9, Zero9),                                   \* 8 uniaxial along z (xx = yy # zz)
+    Mat(<<2,0,0,0,2,0,0,0,2>>, <<2,0,0,0,1,0,0,0,2>>, <<0,0,0,0,0,0,0,0,2>>, <<3,0,0,0,1,0,0,0,1>>) >> \* 9 uniaxial mu (y), se (z only), sm (x)
 NMat == Len(Catalogue)
 
 VARIABLES objs,     \* scene, fixed at Init: sequence (list order) of [ord, cover, mat, extra]
@@ -54,7 +58,7 @@ GeoScenes  == { << Obj(-1000, Cells, 1, {}), Obj(o[1], c[1], 2, {}), Obj(o[2], c
 \* ... and all material assignments (plus one unused dictionary entry) with a fixed overlapping geometry
 VolMats == IF L >= 4 THEN 1..NMat ELSE {1, 5}      \* quick tier: volume material vacuum or magnetic only
 KindScenes == { << Obj(-1000, Cells, m[1], {}), Obj(1, {1, 2}, m[2], {}), Obj(0, {2, 3}, m[3], {x}), Obj(1, {2}, m[4], {}) >> :
-                  m \in { f \in [1..4 -> 1..NMat] : f[1] \in VolMats }, x \in {1, 4, 7} }
+                  m \in { f \in [1..4 -> 1..NMat] : f[1] \in VolMats }, x \in {1, 4, 7, 8} }
 
 \* NObj - 1 objects whose placement orders are 0 or 1 (all tied, or two tie groups interleaved in the list in every
 \* way), covers from three mutually overlapping sets, all materials distinct from their list neighbours
@@ -62,7 +66,11 @@ TieCovers == { Cells, Cells \ {1}, Cells \ {L} }
 TieScenes == { [ i \in 1..NObj |-> IF i = 1 THEN Obj(-1000, Cells, 1, {})
                                    ELSE Obj(o[i], c[i], 2 + (i % 6), {}) ] :
                  o \in [2..NObj -> {0, 1}], c \in [2..NObj -> TieCovers] }
-Scenes == IF Family = "ties" THEN TieScenes ELSE GeoScenes \cup KindScenes
+TieCoverSeq == << Cells, Cells \ {1}, Cells \ {L} >>
+TieScenesQ == { [ i \in 1..NObj |-> IF i = 1 THEN Obj(-1000, Cells, 1, {})
+                                    ELSE Obj(o[i], TieCoverSeq[1 + ((i + r) % 3)], 2 + (i % 6), {}) ] :
+                  o \in [2..NObj -> {0, 1}], r \in 0..2 }
+Scenes == CASE Family = "ties" -> TieScenes [] Family = "tiesq" -> TieScenesQ [] OTHER -> GeoScenes \cup KindScenes
 
 Init == /\ objs \in Scenes
         /\ pc = "tiers" /\ k = 0
@@ -72,7 +80,7 @@ Init == /\ objs \in Scenes
 
 SelectTiers ==
     /\ pc = "tiers"
-    /\ tiers' = ExpTiers(MatsOf(objs))
+    /\ tiers' = ExpTiersV(MatsOf(objs), IsoTest)
     /\ pc' = "paint"
     /\ UNCHANGED << objs, k, owner, Order >>
 
